@@ -6,10 +6,11 @@
    block is seen by the call only through alpha (status class, content-type class, grpc-status class,
    metadata class); [outcome k bs] runs the call program of kind k on the abstract script,
    [observe] resolves it against the strings.  [spec_allows bs r] is the table of the property
-   statement.  Four cells of the statement are FALSE of the faithful model; they are kept visible as
-   `_refuted` theorems with their witnesses (findings D2c, D2d, D2f, D2g) next to the `_partial`
-   theorems whose hypothesis excludes exactly the recorded class.  (A fifth, D2e -- END_STREAM without
-   trailers made the call hang -- was repaired in /repo; its theorems are now at full strength.) *)
+   statement.  Three cells of the statement are FALSE of the faithful model; they are kept visible as
+   `_refuted` theorems with their witnesses (findings D2c, D2d, D2g) next to the `_partial` theorems
+   whose hypothesis excludes exactly the recorded class.  (D2e -- END_STREAM without trailers made the
+   call hang -- and D2f -- an open() context left after GOAWAY exited successfully -- were found here and
+   repaired in /repo; their theorems are now at full strength.) *)
 From Coq Require Import ZArith List Bool String.
 From GV Require Import Lib.Str Gen.Facts Gen.FactsC02 Model.Base64 Model.Metadata Model.PyInt
   Model.ClientCall Proofs.C02Proofs.
@@ -128,7 +129,7 @@ Theorem C02_source_facts :
   sk_recv_trailing_metadata = map s2z
     ["recv_trailers"; "_process_grpc_status"; "decode_metadata"; "recv_trailing_metadata";
      "_raise_for_grpc_status"]%string /\
-  sk_maybe_finish = map s2z ["is_closing"; "recv_initial_metadata"; "recv_trailing_metadata"]%string /\
+  sk_maybe_finish = map s2z ["recv_initial_metadata"; "recv_trailing_metadata"]%string /\
   sk_maybe_raise = map s2z
     ["_raise_for_status"; "_process_grpc_status"; "_raise_for_grpc_status"; "_process_grpc_status";
      "_raise_for_grpc_status"]%string /\
@@ -141,7 +142,7 @@ Theorem C02_source_facts :
     ["open"; "send_message"; "send_message"; "send_request"; "recv_message";
      "assert:reply is not None"]%string /\
   sk_call_ss = map s2z ["open"; "send_message"; "send_message"; "send_request"; "__aiter__"]%string /\
-  maybe_finish_test = s2z "not self._cancel_done and (not self._stream._transport.is_closing())" /\
+  maybe_finish_test = s2z "not self._cancel_done" /\
   aexit_tests = map s2z
     ["not self._send_request_done"; "exc_val is None"; "isinstance(exc_val, StreamTerminatedError)";
      "reraise"; "self._stream.closable"; "self._wrapper_ctx is not None"; "exc_val is None"]%string /\
@@ -171,33 +172,32 @@ Theorem C02_table_refuted :
 Proof. exact table_refuted. Qed.
 Print Assumptions C02_table_refuted.
 
-(* every cell of the statement's table, outside the four recorded defect classes *)
+(* every cell of the statement's table, outside the three recorded defect classes *)
 Theorem C02_table_partial :
   forall k bs, In k all_kinds -> In bs (cases_of 2 k) -> defect k bs = false ->
                spec_allows bs (outcome k bs) = true.
 Proof. exact table_partial. Qed.
 Print Assumptions C02_table_partial.
 
-(* success only if grpc-status OK was received on an acceptable response: the four __call__ methods *)
-Theorem C02_ok_sound_call :
-  forall k bs n, In k call_kinds -> In bs (cases_of 2 k) -> outcome k bs = ROk n ->
+(* success only if grpc-status OK was received on an acceptable response: FULL STRENGTH, the four
+   __call__ methods and every open() body *)
+Theorem C02_ok_sound :
+  forall k bs n, In k all_kinds -> In bs (cases_of 2 k) -> outcome k bs = ROk n ->
                  status_ok_received bs = true.
-Proof. exact ok_sound_call. Qed.
-Print Assumptions C02_ok_sound_call.
+Proof. exact ok_sound. Qed.
+Print Assumptions C02_ok_sound.
 
-(* FULL-STRENGTH STATEMENT for open() (false): the same without the hypothesis d2f k bs = false *)
-Theorem C02_ok_sound_open_refuted :
+(* the repaired cell (formerly D2f): GOAWAY / connection loss delivered before the exit of an open() body *)
+Theorem C02_closing_before_exit :
   let bs := [{| b_trig := TB; b_events := [AH (H_ok GsAbsent MdOk) false; AD false] |};
              {| b_trig := TS 1; b_events := [AT (T_of GsErr); AGoaway] |}] in
-  wf_script bs = true /\ outcome (Open false false [RM]) bs = ROk 1 /\ status_ok_received bs = false.
-Proof. exact ok_sound_open_refuted. Qed.
-Print Assumptions C02_ok_sound_open_refuted.
-
-Theorem C02_ok_sound_open_partial :
-  forall k bs n, In k all_kinds -> In bs (cases_of 2 k) -> d2f k bs = false -> outcome k bs = ROk n ->
-                 status_ok_received bs = true.
-Proof. exact ok_sound_open_partial. Qed.
-Print Assumptions C02_ok_sound_open_partial.
+  let done := [{| b_trig := TB; b_events := [AH (H_ok GsAbsent MdOk) false; AD false; AT (T_of GsOk)] |};
+               {| b_trig := TS 3; b_events := [AGoaway] |}] in
+  wf_script bs = true /\ outcome (Open false false [RM]) bs = RExc (XServer BTrl) /\
+  outcome (Open false false []) [{| b_trig := TS 0; b_events := [ALost] |}] = RExc XTerminated /\
+  outcome (Open false false [RI; RM; RT]) done = ROk 1.
+Proof. exact closing_before_exit. Qed.
+Print Assumptions C02_closing_before_exit.
 
 (* only GRPCError / StreamTerminatedError leave the call ... *)
 Theorem C02_only_grpc_errors_partial :
